@@ -998,4 +998,124 @@ theorem marshalOne_ok_of_wf {p : Rtcp} (w : p.WF) : ∃ bs, marshalOne p = .ok b
       · simp only [hz, if_false, List.length_append, List.length_replicate, List.length_cons, List.length_nil]; omega
     exact ⟨_, by simp only [marshalOne, twccEmit]; rw [if_neg (by omega), hf]; rfl⟩
 
+/-! ### exactly which logical packets the marshaller accepts -/
+
+/-- The wire can carry the packet: every count fits its 5- or 8-bit field, every SDES item has a type other
+than END and at most 255 bytes of text, the TWCC reference time fits 24 bits, a NACK names at least one
+packet, and the body fits the 16-bit length field. (Values that fit but are lossy on the wire — loss counts,
+BYE reasons, REMB bitrates — are accepted and canonicalised, see `canon`.) -/
+def Encodable : Rtcp → Prop
+  | .sr _ _ _ _ _ _ bl => bl.length ≤ 31
+  | .rr _ bl => bl.length ≤ 31
+  | .sdes cs => cs.length ≤ 31 ∧ (∀ c ∈ cs, ∀ i ∈ c.items, i.ty ≠ 0 ∧ i.text.length ≤ 255) ∧ fits (sdesBody [] cs) = true
+  | .bye ss _ => ss.length ≤ 31
+  | .pli _ _ => True
+  | .fir _ rq => rq.length ≤ 32766
+  | .nack _ _ lost => lost ≠ []
+  | .remb _ _ ss => ss.length ≤ 255
+  | .twcc _ _ _ _ r _ pl => r.toNat < 16777216 ∧ pl.length ≤ 262124
+
+theorem emit_isOk {f p : Nat} {b : Bytes} : (∃ bs, emit f p b = .ok bs) ↔ fits b = true := by
+  constructor
+  · rintro ⟨bs, h⟩; exact (emit_ok h).1
+  · intro h; exact ⟨_, emit_of_fits h⟩
+
+theorem fits_iff_len (b : Bytes) : fits b = true ↔ b.length ≤ 262140 := by
+  constructor
+  · intro h; have := fits_len h; have := pad4_aligned b.length
+    simp only [fits, decide_eq_true_eq] at h; omega
+  · exact fits_of_len
+
+theorem marshalOne_ok_iff (p : Rtcp) : (∃ bs, marshalOne p = .ok bs) ↔ Encodable p := by
+  have hMax := c15RtcpMaxCount_eq
+  have h255 := c15RembMaxSsrcs_eq
+  have hbye := c15ByeMaxReason_eq
+  cases p with
+  | sr s m l t pc oc bl =>
+    simp only [marshalOne, Encodable]
+    by_cases hc : bl.length > c15RtcpMaxCount
+    · rw [if_pos hc]; exact ⟨(fun ⟨_, h⟩ => by cases h), fun h => by omega⟩
+    · rw [if_neg hc, emit_isOk]
+      refine ⟨fun _ => by omega, fun _ => fits_of_len ?_⟩
+      simp only [List.length_append, be32_length, flatMap_blockBytes_length]; omega
+  | rr s bl =>
+    simp only [marshalOne, Encodable]
+    by_cases hc : bl.length > c15RtcpMaxCount
+    · rw [if_pos hc]; exact ⟨(fun ⟨_, h⟩ => by cases h), fun h => by omega⟩
+    · rw [if_neg hc, emit_isOk]
+      refine ⟨fun _ => by omega, fun _ => fits_of_len ?_⟩
+      simp only [List.length_append, be32_length, flatMap_blockBytes_length]; omega
+  | sdes cs =>
+    simp only [marshalOne, Encodable]
+    by_cases hc : cs.length > c15RtcpMaxCount
+    · rw [if_pos hc]; exact ⟨(fun ⟨_, h⟩ => by cases h), fun h => by omega⟩
+    · rw [if_neg hc]
+      cases hie : sdesItemErr cs with
+      | some e =>
+        simp only
+        refine ⟨(fun ⟨_, h⟩ => by cases h), fun h => ?_⟩
+        rw [sdesItemErr_of_ok h.2.1] at hie; cases hie
+      | none =>
+        simp only
+        rw [emit_isOk]
+        exact ⟨fun h => ⟨by omega, sdesItemErr_none hie, h⟩, fun h => h.2.2⟩
+  | bye ss r =>
+    simp only [marshalOne, Encodable]
+    by_cases hc : ss.length > c15RtcpMaxCount
+    · rw [if_pos hc]; exact ⟨(fun ⟨_, h⟩ => by cases h), fun h => by omega⟩
+    · rw [if_neg hc, emit_isOk]
+      refine ⟨fun _ => by omega, fun _ => fits_of_len ?_⟩
+      cases r with
+      | none => simp only [byeBody, List.length_append, be32s_length, List.length_nil]; omega
+      | some x =>
+        have := byeCut_le x (min x.length c15ByeMaxReason)
+        simp only [byeBody, List.length_append, be32s_length, List.length_cons, List.length_take]; omega
+  | pli s m =>
+    simp only [marshalOne, Encodable, emit_isOk, iff_true]
+    exact fits_of_len (by simp)
+  | fir s rq =>
+    simp only [marshalOne, Encodable, emit_isOk, fits_iff_len]
+    rw [firBody_eq]; simp only [List.length_append, be32_length, flatMap_firEnc_length]; omega
+  | nack s m lost =>
+    simp only [marshalOne, Encodable]
+    cases lost with
+    | nil => simp
+    | cons a as =>
+      simp only [List.isEmpty_cons, Bool.false_eq_true, if_false, emit_isOk, ne_eq, reduceCtorEq, not_false_eq_true, iff_true]
+      apply fits_of_len
+      have := packNack_count (a :: as)
+      simp only [List.length_append, be32_length, flatMap_pairBytes_length]; omega
+  | remb s br ss =>
+    simp only [marshalOne, Encodable]
+    by_cases hc : ss.length > c15RembMaxSsrcs
+    · rw [if_pos hc]; exact ⟨(fun ⟨_, h⟩ => by cases h), fun h => by omega⟩
+    · rw [if_neg hc, emit_isOk]
+      refine ⟨fun _ => by omega, fun _ => fits_of_len ?_⟩
+      simp only [rembBody, rembTag, List.length_append, be32_length, be32s_length, List.length_cons, List.length_nil]; omega
+  | twcc s m b c r f pl =>
+    simp only [marshalOne, Encodable]
+    have hl : (twccBody s m b c r f pl).length = 16 + pl.length := by simp [twccBody]; omega
+    by_cases hr : r.toNat > 16777215
+    · rw [if_pos hr]; exact ⟨(fun ⟨_, h⟩ => by cases h), fun h => by omega⟩
+    · rw [if_neg hr]
+      have hpl : (twccPadded (twccBody s m b c r f pl)).length = 16 + pl.length + pad4 (16 + pl.length) := by
+        have hlt := pad4_lt (16 + pl.length)
+        unfold twccPadded
+        rw [hl]
+        by_cases hz : pad4 (16 + pl.length) = 0
+        · simp only [hz, if_true, hl, Nat.add_zero]
+        · simp only [hz, if_false, List.length_append, List.length_replicate, List.length_cons, List.length_nil, hl]
+          omega
+      have h3 := pad4_lt (16 + pl.length)
+      have h4 := pad4_aligned (16 + pl.length)
+      unfold twccEmit
+      constructor
+      · rintro ⟨bs, h⟩
+        cases hf : fits (twccPadded (twccBody s m b c r f pl)) with
+        | false => rw [hf] at h; simp at h
+        | true => rw [fits_iff_len, hpl] at hf; exact ⟨by omega, by omega⟩
+      · rintro ⟨_, hp⟩
+        have hf : fits (twccPadded (twccBody s m b c r f pl)) = true := by rw [fits_iff_len, hpl]; omega
+        exact ⟨_, by rw [hf]; rfl⟩
+
 end RtcModel.C15
